@@ -79,7 +79,10 @@ fn isolated(id: &str, tier: Tier, seed: u64) -> i32 {
         Passthrough::Exited(101, out) => {
             // an uncaught panic: raised inside the library (location under .../repo/src/, e.g. while a parser is being built)
             // it is a violation; raised inside the harness itself it is a defect of the tool, reported as inconclusive
-            let in_library = out.lines().filter(|l| l.contains("harness panic:")).any(|l| l.rsplit(" @ ").next().map(|loc| loc.contains("repo/src/") || loc.contains("chumsky")).unwrap_or(false));
+            // (no panic line at all: the panic was raised while a library call was being guarded -- the hook is silent there --
+            // and could not be caught, e.g. a panic during unwinding: the library's doing as well)
+            let lines: Vec<&str> = out.lines().filter(|l| l.contains("harness panic:")).collect();
+            let in_library = lines.is_empty() || lines.iter().any(|l| l.rsplit(" @ ").next().map(|loc| loc.contains("repo/src/") || loc.contains("chumsky")).unwrap_or(false));
             if in_library {
                 crash("panicked inside the library outside the places where panics are caught (e.g. while building a parser; the message is in the output above)".into(), &out)
             } else {
